@@ -1,4 +1,4 @@
-// @file host=src/iter.rs mod=verif_iter
+// @file host=src/iter.rs mod=verif_iter needs=iterdrop
 //! Engine-K contracts for the by-value iterator (C03, C04, C05, C06), as Hoare triples from an ARBITRARY state that
 //! satisfies the representation invariant `index <= index_back <= N`, slot k live <=> index <= k < index_back.
 //! The oracle is the deque semantics of the property statement, never the code.
@@ -37,6 +37,18 @@ macro_rules! any_iter_d {
         }
         (GenericArrayIter::<D, $N> { array: ManuallyDrop::new(arr), index: i, index_back: b }, i, b)
     }};
+}
+
+/// arm the destructor monitor for iterators of type GenericArrayIter<D, $N> (slot k holds id k)
+macro_rules! arm {
+    ($N:ty) => {
+        arm_dtor_monitor(
+            0,
+            core::mem::offset_of!(GenericArrayIter<D, $N>, array),
+            core::mem::offset_of!(GenericArrayIter<D, $N>, index),
+            core::mem::offset_of!(GenericArrayIter<D, $N>, index_back),
+        )
+    };
 }
 
 /// ledger: exactly the ids in [lo, hi) (below n) are live
@@ -359,15 +371,9 @@ macro_rules! iter_d_nth {
             let (mut it, i, b) = any_iter_d!($N, $n);
             let n: usize = kani::any();
             // arm the destructor monitor: any destructor that runs inside nth() may be the one that panics
-            unsafe {
-                WATCH_BASE = 0;
-                WATCH_INDEX = &it.index as *const usize;
-                WATCH_BACK = &it.index_back as *const usize;
-            }
+            arm!($N);
             let r = it.nth(n);
-            unsafe {
-                WATCH_INDEX = core::ptr::null();
-            }
+            disarm_dtor_monitor();
             let len = b - i;
             let skipped = if n < len { n } else { len };
             kani::assert(unsafe { DROPS } == skipped, "C03.nth: exactly the skipped elements are dropped");
@@ -392,15 +398,9 @@ macro_rules! iter_d_nth_back {
         fn $name() {
             let (mut it, i, b) = any_iter_d!($N, $n);
             let n: usize = kani::any();
-            unsafe {
-                WATCH_BASE = 0;
-                WATCH_INDEX = &it.index as *const usize;
-                WATCH_BACK = &it.index_back as *const usize;
-            }
+            arm!($N);
             let r = it.nth_back(n);
-            unsafe {
-                WATCH_INDEX = core::ptr::null();
-            }
+            disarm_dtor_monitor();
             let len = b - i;
             let skipped = if n < len { n } else { len };
             kani::assert(unsafe { DROPS } == skipped, "C03.nth_back: exactly the skipped elements are dropped");
@@ -428,13 +428,19 @@ macro_rules! iter_d_consume {
             kani::assume(which < 5);
             if which == 0 {
                 // the iterator's own drop
+                arm!($N);
                 drop(it);
+                disarm_dtor_monitor();
                 kani::assert(unsafe { DROPS } == b - i, "C03.drop: drops exactly the remaining elements");
             } else if which == 1 {
+                arm!($N);
                 let c = it.count();
+                disarm_dtor_monitor();
                 kani::assert(c == b - i && unsafe { DROPS } == b - i, "C03.count: drops exactly the remaining elements");
             } else if which == 2 {
+                arm!($N);
                 let r = it.last();
+                disarm_dtor_monitor();
                 if i < b {
                     kani::assert(unsafe { DROPS } == b - i - 1, "C03.last: drops all but the last");
                     kani::assert(r.as_ref().map(|d| d.0) == Some(b - 1) && live(b - 1), "C03.last: the last element is handed back live");
